@@ -75,6 +75,12 @@ add('C03',
     'Does not decide run-time values of composite state; trusts templates.replace to substitute placeholders positionally as written.',
     'DESIGN.md section 4, C03')
 
+add('C17',
+    'ASDL well-formedness check of every ast.<Kind>(...) construction (grammar read from the interpreter), provenance analysis of ReplaceTransformer return values (must derive from copy_clean), dominating-guard analysis of CleanCopier.copy returns, CFG dominance / must-pass-through for the save/restore of the context override, who-may-call check for unset-ctx producers, reaching-definition identity of the text written and the text mapped, taint check on the printed text, argument forwarding of to_code',
+    'Decides the structural conditions under which the transformed tree is a proper tree with correct contexts and the loaded text is the shown text: all hand-built nodes are well-formed for the running grammar; template replacements are clean deep copies and the copier shares only leaf values; each replacement is adjusted to the placeholder context and the adjuster restores its override around every child visit; nodes with unset ctx exist only as template replacements; load_ast writes and maps one source value; unparse edits no printed line; to_code converts with exactly the options given.',
+    'Trusts ast.unparse/ast.parse round-tripping (stdlib) and the single recorded exception (visit_arg hands through freshly built ast.arg nodes).',
+    'DESIGN.md section 4, C17')
+
 NOT_APPLICABLE = {
     'C12': 'quantifies over run-time tracebacks, generated line layout and source-map contents, which exist only after the pipeline has run on a program; the only shape-level clause (exception re-creation table) is too small a part to claim the property through (DESIGN.md section 5)',
 }
